@@ -25,7 +25,7 @@ RULE = ("product of source location {top, in package} x client location {top, sa
         "2 000 cells); non-trivial = performed request that changed the client or moved a file; distinct = cell")
 ASSUMPTIONS = ["one client module per project so that a failure is attributable to its import style",
                "requests that create an import cycle are a labelled class"]
-BUDGET = {"quick": (2500, 200), "thorough": (120000, 480)}
+BUDGET = {"quick": (2500, 240), "thorough": (70000, 900)}
 EXHAUSTIVE = {}
 CASE_TIMEOUT = 300
 REQUIRE = {"performed_and_run": 300}
